@@ -16,6 +16,10 @@ enum Mismatch {
 
 pub fn main(tier: Tier, seed: u64) -> i32 {
     let mut rep = Report::new("C16", tier, seed, "model_checking");
+    if let Err(e) = crate::srvx::selftest(seed) {
+        rep.machinery(e);
+        return rep.finish();
+    }
     let budget = Budget::new(if tier.is_thorough() { 900.0 } else { 40.0 });
     let mut plan: Vec<(usize, usize, Mismatch)> = vec![];
     for n in [2usize, 3] {
